@@ -270,3 +270,38 @@ func VerifC04Short() {
 	verifAssumeNoACE(s)
 	c04CheckAccepted(s)
 }
+
+// VerifC04AcceptsV4V6Text: IPv6-style texts (incl. IPv4-mapped forms such as
+// "::ffff:4.3.2.1") in front of ".in-addr.arpa": none of them is a canonical
+// in-addr.arpa name, so none may be accepted.
+func VerifC04AcceptsV4V6Text() {
+	var b []byte
+	lead := verifrt.Bool2()
+	if lead {
+		b = append(b, ':', ':')
+	}
+	nf := verifrt.Len(2)
+	for i := 0; i < nf; i++ {
+		w := [...]int{1, 4}[verifrt.Choice(2)]
+		for j := 0; j < w; j++ {
+			c := verifrt.Byte()
+			verifrt.Assume(c >= '0' && c <= '9' || c >= 'a' && c <= 'f' || c >= 'A' && c <= 'F')
+			b = append(b, c)
+		}
+		b = append(b, ':')
+	}
+	if !lead && nf > 0 && verifrt.Bool2() {
+		b = append(b, ':')
+	}
+	for k := 0; k < 4; k++ {
+		if k > 0 {
+			b = append(b, '.')
+		}
+		d := verifrt.Byte()
+		verifrt.Assume(d >= '0' && d <= '9')
+		b = append(b, d)
+	}
+	b = append(b, '.')
+	b = c04Tail(b, "in-addr.arpa")
+	c04CheckAccepted(string(b))
+}
